@@ -18,7 +18,7 @@ impl Gamma {
     /// # Errors
     /// Panics if `alpha <= 0` or `beta <= 0`.
     pub fn new(alpha: f64, beta: f64) -> Self {
-        if alpha <= 0. || beta <= 0. {
+        if !(alpha > 0. && beta > 0.) {
             panic!("Both alpha and beta must be positive.");
         }
         Gamma {
@@ -29,14 +29,14 @@ impl Gamma {
         }
     }
     pub fn set_alpha(&mut self, alpha: f64) -> &mut Self {
-        if alpha <= 0. {
+        if !(alpha > 0.) {
             panic!("Alpha must be positive.");
         }
         self.alpha = alpha;
         self
     }
     pub fn set_beta(&mut self, beta: f64) -> &mut Self {
-        if beta <= 0. {
+        if !(beta > 0.) {
             panic!("Beta must be positive.");
         }
         self.beta = beta;
